@@ -25,6 +25,9 @@ CHECKS = {
  "C07": dict(level="exploration", ref="DESIGN.md §5 C07",
    technique="deterministic simulation: seeded histories vs wrapping/saturating reference model; seeded thread schedules with atomics as scheduling points",
    text="Seeded search: boundary-valued operation histories against an executable reference model (sequential), and 2-8 simulated threads incrementing clones under a seeded scheduler that interleaves at every atomic operation (lost-update oracle). Sampling over histories and schedules; exact replay from a seed/schedule file."),
+ "C05": dict(level="exploration", ref="DESIGN.md §5 C05",
+   technique="deterministic simulation: virtual clock with seeded arrival-gap generator clustered around the refresh interval; window/staleness laws checked on recorded paint timestamps",
+   text="One run covers up to days of simulated time: 50-400 redraw requests with gaps at exactly the interval +- 1 ns / 1 us, bursts, seconds, hours, for every refresh rate 1..=255 and unlimited targets, standalone and through a MultiProgress; the statement's laws (window bound 20+R*T+1, no starvation after one interval, position staleness <= interval + 1 ms, position bucket burst 10 / 1 ms, nothing lost) are evaluated on the timestamps of the frames that reached the simulated terminal. Sampling of arrival patterns; exact replay."),
  "C08": dict(level="exploration", ref="DESIGN.md §5 C08",
    technique="deterministic simulation: seeded random/sticky/PCT thread schedules at lock/condvar/spawn/join/atomic granularity with virtual timers, spurious wake-ups and clock jitter; deadlock (wait-for graph), no-time-scope and thread-lifecycle oracles",
    text="2-3 simulated user threads plus the library's ticker threads run short programs of public calls on shared handles; the scheduler owns every lock, condvar, spawn and join decision and the clock, so the three-party update()/ticker-slot/join interleaving is produced on demand and replayed exactly; stop calls must return without the virtual clock moving for intervals from 1 ms to 10 h; a second mode checks that the ticker ticks, that manual ticks do not advance the spinner and that it stops on finish/disable/replace/drop. Sampling of schedules; exact replay from seed or schedule file."),
